@@ -13,6 +13,15 @@ pub fn profile(p: u64) -> Scn {
         s.epoch_len = 6;
         return s;
     }
+    if p == 8 {
+        // tiny epochs under REAL difficulty adjustment: a reorganisation across an epoch boundary derives another next epoch
+        // (length, target) than the abandoned branch did; templates are taken right after it
+        s.mine = true;
+        s.window = (2, 4);
+        s.epoch_len = 4;
+        s.adjust = true;
+        return s;
+    }
     if p == 5 || p == 6 {
         // tight consensus limits: a block holds the cellbase and about three transactions (cycles: 3 x 537 <= 1700 < 4 x 537;
         // bytes: ~480 of header / cellbase / extension + 3-4 transactions), three proposals - templates are taken while the
@@ -276,7 +285,9 @@ pub fn reorg_history(args: &[String], probes: bool) -> Value {
             // first blocks of the new epoch
             let l = w.scn.epoch_len as usize;
             let n = w.chain.len();
-            if w.probe_templates && l < 50 && n >= 2 && ((n + 1) % l == 0 || (n + 2) % l == 0) && rng.chance(2, 3) {
+            // the tip is one of the last two blocks of its epoch (read from the header: epoch lengths vary under adjustment)
+            let near_end = { let e = w.node.shared.snapshot().tip_header().epoch(); e.index() + 2 >= e.length() };
+            if w.probe_templates && l < 50 && n >= 2 && near_end && (pr == 8 || rng.chance(2, 3)) {
                 nonce += 10;
                 let contents = vec![(vec![], vec![]); 2];
                 let (d, _) = w.reorg(1, &contents, nonce * 13)?;
